@@ -369,6 +369,31 @@ def r13_no_cancel_and_retry_of_framed_reads(ctx):
     ctx.ob("R01.13", "crate:no-cancel-and-retry-of-framed-reads", True, "", "%d looped timeout/select sites examined, %d bodies perform framed reads" % (n, len(readers)), nontrivial=False)
 
 
+def r14_one_path_per_stream(ctx):
+    """the bytes a front-end / relay submits on a stream take one route to the wire: either the stream's outbound queue
+    (Stream::send_data / AsyncWrite, drained by the forwarding task) or direct Session::write_data_frame calls — never both, because
+    each route is FIFO but nothing orders one against the other"""
+    per_owner = {}
+    for key, body in ctx.P.scan():
+        if key.startswith(("session::", "<session::")):
+            continue
+        for c in body.calls():
+            nm = c.norm or ""
+            if nm.endswith(("Stream::send_data", "AsyncWriteExt::write_all")) and nm.endswith("Stream::send_data"):
+                per_owner.setdefault(ctx.P.owner(key), {}).setdefault("queue", []).append(c)
+            elif nm.endswith("Session::write_data_frame"):
+                per_owner.setdefault(ctx.P.owner(key), {}).setdefault("direct", []).append(c)
+    n = 0
+    for owner, d in sorted(per_owner.items()):
+        n += 1
+        mixed = "queue" in d and "direct" in d
+        ctx.ob("R01.14", "%s|one-route-to-the-wire" % owner, not mixed, (d.get("queue") or d.get("direct"))[0].site,
+               "all stream data of this function goes through %s" % ("the outbound queue" if "queue" in d else "write_data_frame") if not mixed else
+               "this function sends on a stream both through its outbound queue (send_data, line %s) and directly (write_data_frame, line %s): the two routes are not ordered against each other, so bytes submitted "
+               "later can reach the peer first (a request body overtaking its head)" % (d["queue"][0].line, d["direct"][0].line))
+    ctx.floor("R01.14", "functions outside the session that send stream data", n, 6)
+
+
 PARTIAL_WRITES = ("AsyncWriteExt::write", "AsyncWriteExt::write_buf", "AsyncWriteExt::write_vectored", "AsyncWrite::poll_write", "AsyncWriteExt::write_all_buf_partial",
                   "io::Write::write", "io::Write::write_vectored")
 
@@ -474,6 +499,11 @@ def run(ctx):
     from . import C04, C11
     r12_every_dequeued_chunk_is_written(ctx)
     r13_no_cancel_and_retry_of_framed_reads(ctx)
+    r14_one_path_per_stream(ctx)
+    from . import C08
+    C08.r6_loop_exits(ctx)      # a relay direction stops only when its own source ends or fails: queued bytes are not abandoned
+    C08.r8_buffered_sinks_are_flushed(ctx)
+    C03.r3_totality(ctx)        # the decoder accepts every frame the 16-bit length field can announce
     C04.r6_flushed_before_success(ctx)   # bytes reported as written are actually pushed to the transport
     C04.r1_waste_frames(ctx)    # a padding frame whose body is not the length its header announces desynchronises every later frame of the session
     C11.r3_open_order(ctx)      # the inbound queue exists before the SYN is on the wire: a peer that speaks first is not dropped
